@@ -352,6 +352,16 @@ func c17Pure(rep *vrep.Report) {
 					if !ok {
 						rep.Violation("C17/period-rounding", fmt.Sprintf("interval %s at %d.%09d: round=%d next=%d", I, at.Unix(), ns, r.Unix(), nx.Unix()), map[string]interface{}{"interval": I.String(), "at": at.Unix()})
 					}
+					// the same instant as peers in other time zones carry it: same period, same deadline, same point
+					for _, loc := range []*stdtime.Location{stdtime.UTC, stdtime.FixedZone("+05:30", 5*3600+1800), stdtime.FixedZone("-08:00", -8*3600), stdtime.FixedZone("+12:45", 12*3600+2700)} {
+						atL := at.In(loc)
+						rl, nl := RoundTimePeriod(atL, I), NextTimePeriod(atL, I)
+						same := rl.Unix() == r.Unix() && nl.Unix() == nx.Unix() && bytes.Equal(GenerateRendezvousPointForPeriod([]byte("t"), seeds[1], rl), GenerateRendezvousPointForPeriod([]byte("t"), seeds[1], r))
+						rep.Eval(fmt.Sprintf("pure/location/I=%s/same=%v", I, same))
+						if !same {
+							rep.Violation("C17/period-depends-on-location", fmt.Sprintf("interval %s, instant %d as a time value in zone %s: period start %d (deadline %d), in the reference zone %d (deadline %d): two peers in different zones derive different points for the same instant", I, at.Unix(), loc, rl.Unix(), nl.Unix(), r.Unix(), nx.Unix()), map[string]interface{}{"interval": I.String(), "at": at.Unix(), "zone": loc.String()})
+						}
+					}
 					for _, tp := range topics {
 						for si, sd := range seeds {
 							tb := []byte(tp)
